@@ -5,13 +5,14 @@ al = VerusUnit("al_astar", "al_astar", rlimit=60)
 CORE = "routee-compass-core"
 wit = KaniUnit("c01_wit", CORE, modules=[dict(file=CORE + "/src/algorithm/search/search_instance.rs", src="world.rs"),
                                           dict(file=CORE + "/src/algorithm/search/search_algorithm.rs", src="c01_wit.rs")], harnesses=[])
-wit.native_witnesses = ["c01_wit_box_world_all_pairs", "c01_wit_edge_oriented_destination_head_already_in_tree", "c01_wit_edge_oriented_adjacent", "c01_wit_single_via_routes_are_walks", "c03_wit_ksp_routes_report_their_own_retraversal"]
+wit.native_witnesses = ["c01_wit_box_world_all_pairs", "c01_wit_edge_oriented_destination_head_already_in_tree", "c01_wit_edge_oriented_adjacent", "c01_wit_single_via_routes_are_walks", "c03_wit_ksp_routes_report_their_own_retraversal", "c01_wit_ksp_edge_oriented_routes_are_walks"]
 bt = VerusUnit("c01_backtrack", "c01_backtrack", rlimit=60)
 eo = VerusUnit("c01_edge_oriented", "c01_edge_oriented", rlimit=60, paired_kani=(wit, []))
 sv = VerusUnit("c13_single_via", "c13_single_via", rlimit=60, paired_kani=(wit, []))
 dp = VerusUnit("c01_dispatch", "c01_dispatch", rlimit=60)
 app = VerusUnit("c11_instance", "c11_instance", rlimit=30)
-UNITS = [al, bt, eo, dp, sv, app, wit]
+yr = VerusUnit("c13_yen_run", "c13_yen_run", rlimit=60, paired_kani=(wit, []))
+UNITS = [al, bt, eo, dp, sv, yr, app, wit]
 EXPLANATION = ("run_a_star / advance_search / get_last_traversed_edge_id / Direction::{tree_key_vertex_id, terminal_vertex_id} extracted verbatim; "
                "loop invariants TW (entry edge joins parent to entry in the search direction), DOM, POT (labels strictly decrease along parents) "
                "verified for every graph, direction and model configuration satisfying the assumed callee contracts; no-revisit lemma; "
